@@ -1,8 +1,68 @@
 package main
 
-import "fmt"
+import (
+	"fmt"
+	"time"
+)
 
+// cmdSelftest runs the engine on small harnesses with known verdicts: two lemmas that must be
+// proved, three planted defects that must be found with a model, and one run-time panic.
 func cmdSelftest(args []string) int {
-	fmt.Println("selftest: TODO")
+	l, err := loadProgram([]string{"internal/verifself"})
+	if err != nil {
+		fmt.Println("selftest: cannot load:", err)
+		return 1
+	}
+	type exp struct {
+		fn      string
+		finding string // expected finding key prefix, "" = none
+		reach   string
+	}
+	cases := []exp{
+		{"SelfTwin", "ASSERT:twin", "R:big"},
+		{"SelfWrap", "ASSERT:no-overflow", ""},
+		{"SelfXor", "", "R:done"},
+		{"SelfFloat", "ASSERT:int-to-float-injective", ""},
+		{"SelfIndex", "PANIC:", ""},
+		{"SelfStrings", "", "R:done"},
+	}
+	fail := 0
+	for _, c := range cases {
+		res, err := explore(l, HarnessCfg{Pkg: "internal/verifself", Func: c.fn}, nil, 120*time.Second, false)
+		if err != nil {
+			fmt.Println("selftest:", c.fn, err)
+			fail++
+			continue
+		}
+		ok := res.Remaining == 0 && !res.TimedOut && len(res.Inconclusive) == 0
+		if c.finding == "" {
+			ok = ok && len(res.Findings) == 0
+		} else {
+			found := false
+			for _, f := range res.Findings {
+				if len(f.Key) >= len(c.finding) && f.Key[:len(c.finding)] == c.finding {
+					found = true
+				}
+			}
+			ok = ok && found
+		}
+		if c.reach != "" && res.Reach[c.reach] == 0 {
+			ok = false
+		}
+		if c.fn == "SelfWrap" && ok {
+			ok = len(res.Findings) == 1 && len(res.Findings[0].Tape) == 1 && res.Findings[0].Tape[0] == 9223372036854775807
+		}
+		status := "ok"
+		if !ok {
+			status = "FAILED"
+			fail++
+		}
+		fmt.Printf("selftest %-12s paths=%d queries=%d findings=%d %s\n", c.fn, res.Paths, res.Stats.Queries, len(res.Findings), status)
+	}
+	if fail > 0 {
+		fmt.Println("selftest: FAILED")
+		return 1
+	}
+	fmt.Println("selftest: ok")
 	return 0
 }
